@@ -32,7 +32,7 @@ def weighted(pairs):
     return pick()
 
 
-def op_strategy(resets=True, gens=True, burn=False, custom=False):
+def op_strategy(resets=True, gens=True, burn=False, custom=False, queries=False):
     prog = st.tuples(st.just("p"), BIG, SIDE, KS)
     near = st.tuples(st.just("n"), st.integers(0, 8), BIG, SIDE, KS)
     flat = st.tuples(st.just("f"), BIG, SIDE, KS)
@@ -41,6 +41,8 @@ def op_strategy(resets=True, gens=True, burn=False, custom=False):
     deep = st.tuples(st.just("d"), BIG, SIDE, KS)
     redundant = st.tuples(st.just("i"), BIG, SIDE, KS)
     alts = [(8, prog), (7, deep), (8, near), (4, redundant), (3, flat), (3, rep), (1, noop)]
+    if queries:
+        alts.append((3, st.tuples(st.just("v"), st.integers(0, 59))))
     if custom:
         alts.append((4, st.tuples(st.just("q"), st.integers(0, 2), BIG, st.integers(0, 139), SIDE, KS)))
     if burn:
@@ -74,11 +76,11 @@ MODES = st.fixed_dictionaries({
 
 
 def case_strategy(tier, doc_kw=None, weights=(14, 3, 3), min_ops=12, max_ops=None,
-                  modes=None, resets=True, gens=True, burn=False, custom=False):
+                  modes=None, resets=True, gens=True, burn=False, custom=False, queries=False):
     max_ops = max_ops or (150 if tier == "thorough" else 60)
     return st.fixed_dictionaries({
         "source": source_strategy(tier, doc_kw, weights),
-        "ops": st.lists(op_strategy(resets, gens, burn, custom), min_size=min_ops, max_size=max_ops),
+        "ops": st.lists(op_strategy(resets, gens, burn, custom, queries), min_size=min_ops, max_size=max_ops),
         "modes": modes if modes is not None else st.just({}),
         "foreign": st.sampled_from([None, None, None, "small", "tiny-small", "medium"]),
     })
@@ -172,6 +174,13 @@ class CaseRunner:
                 nops[0] = i + 1
                 res = walk.run_history(h, [tuple(op)], on_rec, on_reset,
                                        both_sides=chk.both_sides, do_gen=chk.do_gen)
+                if res == "diverged" and getattr(h, "query_changed", None):
+                    if chk.pid in ("C04", "C13"):
+                        raise Failure(f"{chk.pid}:query-changed-environment", f"read-only call {h.query_changed} "
+                                      f"(after {i} operations)", bucket=f"{chk.pid}:query-changed-environment")
+                    if record:
+                        rep.count("query-changed-environment(C04/C13)")
+                    break
                 if res == "diverged":
                     if record:
                         rep.count("diverged-not-owned")
@@ -181,6 +190,9 @@ class CaseRunner:
             if chk.on_end:
                 chk.on_end(h, rep)
             if record:
+                rep.count("queries", getattr(h, "queries", 0))
+                if getattr(h, "query_errors", 0):
+                    rep.count("query-raised(not owned)", h.query_errors)
                 ncomp = h.max_depth
                 rep.count(f"depth:{min(ncomp, 5)}{'+' if ncomp >= 5 else ''}")
                 if h.spec.goal(h.mst):
